@@ -34,7 +34,9 @@ def axis_forms(N, rng, full):
     slices = [slice(a, b, k) for a in bounds for b in bounds for k in (None, 1, 2, 3)]
     if full:
         return ints + slices
-    return rng.sample(ints, min(len(ints), 2)) + rng.sample(slices, 4) + forms
+    # open-ended and overshooting forms are always there: they are where the bounds of a pre-sliced axis matter
+    return (rng.sample(ints, min(len(ints), 2)) + rng.sample(slices, 4) + forms +
+            [slice(1, None), slice(-min(2, N), None), slice(1, None, 2), slice(1, N + 2), slice(None, N + 3, 2)])   # bounds within [-N, N+3]
 
 
 def expand(idx, rank):
@@ -92,14 +94,18 @@ def main():
         ds["g"] = g
         spy = Spy(BaseHandler(ds))
         # URL pre-constraint [a:s:b] per axis (or none)
-        for pre_on in (False, True):
+        for pre_on in (False, "whole", "prefix", "any"):
             if pre_on:
                 pre = []
-                whole = rng.random() < 0.4        # a pre-constraint that keeps the whole axis leaves room for every later index form
+                mode = pre_on
                 for n in shape:
-                    a = 0 if whole else rng.randrange(n)
-                    b = n - 1 if whole else rng.randrange(a, n)
-                    pre.append((a, 1 if whole else rng.randint(1, 3), b))
+                    if mode == "whole":          # keeps the whole axis: room for every later index form
+                        pre.append((0, 1, n - 1))
+                    elif mode == "prefix":       # [0:1:k]: looks like 'no constraint' but bounds the axis
+                        pre.append((0, 1, rng.randrange(n)))
+                    else:
+                        a = rng.randrange(n)
+                        pre.append((a, rng.randint(1, 3), rng.randrange(a, n)))
                 slab = "".join("[%d:%d:%d]" % t for t in pre)
                 pre_np = tuple(slice(a, b + 1, s) for a, s, b in pre)
                 stats["with_url_constraint"] += 1
@@ -159,10 +165,25 @@ def main():
                                     clist(list(mshape), cz), clist(stored, c_item), clist(full, c_item),
                                     '"%s"%%string' % unquote(qs[-1])))
                         else:
+                            # a map of the (pre-sliced) grid read on its own, with the index item of its axis
+                            kax = rng.randrange(rank)
+                            mgot = c["g"]["m%d" % kax][keep(full[kax])]
+                            mwant = maps[kax][pre_np[kax]][keep(full[kax])]
+                            check_array("grid map %d read directly (%s)" % (kax, kind), np.asarray(mgot.data if hasattr(mgot, "data") else mgot),
+                                        mwant, info)
                             res = c["g"][key]
                             stats["dap2_grid"] += 1
                             if kind == "grid_off":
                                 check_array(kind, res.data, want, info)
+                                if rng.random() < 0.15:
+                                    # switching the grid to output_grid afterwards gives the sliced maps, too
+                                    c["g"].set_output_grid(True)
+                                    res2 = c["g"][key]
+                                    check_array("array after set_output_grid(True)", res2["a"].data, want, info)
+                                    for k in range(rank):
+                                        check_array("grid map %d after set_output_grid(True)" % k, res2["m%d" % k].data,
+                                                    maps[k][pre_np[k]][keep(full[k])], info)
+                                    c["g"].set_output_grid(False)
                             else:
                                 check_array(kind, res["a"].data, want, info)
                                 for k in range(rank):
